@@ -159,9 +159,30 @@ def make(fmt, rng, variant="plain", natom=None):
         return IOData(one_ints={"core_mo": one}, two_ints={"two_mo": two}, core_energy=1.25, nelec=2 * n, spinpol=0)
     if fmt == "json_qcschema":
         extra = {"schema_name": "qcschema_molecule", "schema_version": 2, "molecule": {}}
+        kw = {}
         if variant == "fatal_schema":
             extra = {}
-        return IOData(atnums=atnums, atcoords=atcoords, charge=0.0, spinpol=0.0, title=title, extra=extra)
+        if variant.startswith(("qcinput", "qcoutput")):
+            # qcschema_input / qcschema_output objects with nested dictionaries and lists the writer has to read, never to edit
+            prov = {"creator": "other-program", "version": "1.0", "routine": "r"}
+            extra = {"schema_name": "qcschema_input", "schema_version": 2,
+                     "molecule": {"provenance": [dict(prov), {"creator": "second", "routine": "s"}] if rng.random() < 0.5 else dict(prov),
+                                  "extras": {"tag": "mol", "nested": {"k": [1, 2, 3]}}},
+                     "input": {"driver": rng.choice(["energy", "gradient", "properties"]), "model": {},
+                               "keywords": {"scf_type": "df", "nested": {"levels": [1, 2, {"deep": True}]}},
+                               "extras": {"note": "x", "list": [1.5, "a"]}, "id": "job-17",
+                               "protocols": {"keep_wavefunction": "all", "keep_stdout": True},
+                               "provenance": [dict(prov)] if rng.random() < 0.5 else dict(prov)}}
+            kw = dict(lot="HF", obasis_name="sto-3g")
+            if variant.startswith("qcoutput"):
+                extra["schema_name"] = "qcschema_output"
+                extra["output"] = {"properties": {"calcinfo_nbasis": 7, "scf_iterations": 3, "nuclear_repulsion_energy": 1.25},
+                                   "return_result": -1.5 if extra["input"]["driver"] == "energy" else [0.1, 0.2, 0.3],
+                                   "stdout": "text on stdout", "stderr": "text on stderr", "success": True,
+                                   "provenance": {"creator": "x"}}
+                if variant == "qcoutput_energy":
+                    kw["energy"] = -3.75
+        return IOData(atnums=atnums, atcoords=atcoords, charge=0.0, spinpol=0.0, title=title, extra=extra, **kw)
     # wavefunction formats
     conv = conventions_for(fmt)
     if variant == "fatal_pure":
@@ -207,11 +228,11 @@ VARIANTS = {
     "molekel": ["plain", "convertible", "convertible_amb", "fatal_generalized"],
     "wfn": ["plain", "convertible", "convertible_amb", "fatal_generalized", "fatal_pure"],
     "wfx": ["plain", "convertible", "convertible_amb", "fatal_generalized", "fatal_pure"],
-    "json_qcschema": ["plain", "fatal_schema"],
+    "json_qcschema": ["plain", "qcinput", "qcoutput", "qcoutput_energy", "fatal_schema"],
 }
 
 
 def frame_kind(variant):
-    if variant == "plain":
+    if variant == "plain" or variant.startswith("qc"):
         return "ok"
     return "convertible" if variant.startswith("convertible") else "fatal"
